@@ -37,7 +37,8 @@ _ST = ["OPEN", "TO_REVIEW", "CLOSED", "RESOLVED", "REVIEWED"]
 
 
 def _sonar_entry(i, kind, status, with_range=True):
-    e = {"key": f"K{kind}{i}", ("rule" if kind == "i" else "ruleKey"): f"python:S{100 + i}", "status": status,
+    rule = f"python:S{100 + i}" if i % 4 != 3 else ("python:LineLength" if kind == "i" else "external_pylint:C0301")
+    e = {"key": f"K{kind}{i}", ("rule" if kind == "i" else "ruleKey"): rule, "status": status,
          "component": (f"proj:src/f{i}.py" if i % 3 else f"com.acme:billing:src/f{i}.py"), "message": f"m{i}"}
     if with_range:
         e["textRange"] = {"startLine": 3 + i, "endLine": 3 + i, "startOffset": 4, "endOffset": 9 + i}
@@ -81,7 +82,13 @@ def _sarif_result(i, region=True):
     if region:
         loc["physicalLocation"]["region"] = {"startLine": 5 + i, "startColumn": 2, "endLine": 5 + i, "endColumn": 11 + i,
                                              "snippet": {"text": "x"}}
-    return {"ruleId": f"pkg.rules.r{i}", "message": {"text": "m"}, "locations": [loc]}
+    locs = [loc]
+    if i % 3 == 1:
+        # one finding with a second location in ANOTHER file: it must be reachable from both files
+        loc2 = {"physicalLocation": {"artifactLocation": {"uri": f"src/other{i}.py"},
+                                     "region": {"startLine": 9 + i, "startColumn": 3, "endLine": 9 + i, "endColumn": 8, "snippet": {"text": "y"}}}}
+        locs.append(loc2)
+    return {"ruleId": f"pkg.rules.r{i}", "message": {"text": "m"}, "locations": locs}
 
 
 def sarif_docs(rng, n):
